@@ -3,6 +3,7 @@ package props
 import (
 	"fmt"
 	"go/token"
+	"go/types"
 	"strings"
 
 	"golang.org/x/tools/go/ssa"
@@ -514,12 +515,20 @@ func versionOwnsLevels(c *eng.Ctx) {
 		if !ok {
 			return false
 		}
-		u, ok := eng.Unwrap(ia.X).(*ssa.UnOp)
-		if !ok {
-			return false
+		if u, ok := eng.Unwrap(ia.X).(*ssa.UnOp); ok {
+			if fa, ok := u.X.(*ssa.FieldAddr); ok && eng.FieldKeyOfAddr(fa) == levelsKey {
+				return true
+			}
 		}
-		fa, ok := u.X.(*ssa.FieldAddr)
-		return ok && eng.FieldKeyOfAddr(fa) == levelsKey
+		// a []*level slice built locally before it is stored into the field
+		if sl, ok := ia.X.Type().Underlying().(*types.Slice); ok {
+			if pt, ok := sl.Elem().(*types.Pointer); ok {
+				if nt, ok := pt.Elem().(*types.Named); ok && nt.Obj().Name() == "level" && nt.Obj().Pkg() != nil && strings.HasSuffix(nt.Obj().Pkg().Path(), "kv/version") {
+					return true
+				}
+			}
+		}
+		return false
 	}
 	var shared []eng.Site
 	n := 0
@@ -575,7 +584,7 @@ func createFamilyOnce(c *eng.Ctx) {
 	mk := c.One(f, eng.AnyCallTo("var:kv.newFamilyFunc", "kv.newFamily"), "newFamilyFunc(store, option)")
 	reg := c.Some(f, eng.MapUpdateOf("kv.store.families"), "s.families[name] = family")
 	var lookups []eng.Site
-	for _, b := range f.Blocks {
+	for _, b := range eng.BlocksT(f) {
 		for _, in := range b.Instrs {
 			if l, ok := in.(*ssa.Lookup); ok && eng.DependsOnField(l.X, "kv.store.families") {
 				lookups = append(lookups, eng.Site{Fn: f, Instr: in})
